@@ -535,6 +535,30 @@ pub fn run_level_b(
             write_file(&root, &f.path, &rendered[i].text);
         }
     }
+    // a symbolic link to a DIRECTORY is not a file of the repository and nothing behind it is in
+    // scope: now and then the tree has a link to a hidden directory holding a file full of
+    // violations (also an unbalanced one), and a link back to the root itself (a loop)
+    let mut dir_links = 0usize;
+    {
+        let mut r = Rng::new(plan.create_seed ^ 0x5eed_d1f5);
+        let free = |n: &str| !world.files.iter().any(|f| f.path == n || f.path.starts_with(&format!("{n}/")));
+        if r.chance(1, 5) && free("zz-linkdir") && free(".bwlinked") {
+            write_file(
+                &root,
+                ".bwlinked/decoy.py",
+                "# <block name=\"decoy\" keep-sorted=\"asc\" keep-unique line-count=\"<1\">\nb\na\na\n# </block>\n",
+            );
+            if r.chance(1, 2) {
+                write_file(&root, ".bwlinked/sub/open.py", "# <block name=\"never-closed\">\nx\n");
+            }
+            if std::os::unix::fs::symlink(".bwlinked", root.join("zz-linkdir")).is_ok() {
+                dir_links += 1;
+            }
+        }
+        if r.chance(1, 12) && free("zz-loop") && std::os::unix::fs::symlink(".", root.join("zz-loop")).is_ok() {
+            dir_links += 1;
+        }
+    }
     if !world.gitignore.is_empty() {
         // ignore rules live in a checked-in .gitignore or in the clone-local .git/info/exclude
         let local_exclude = plan.create_seed % 3 == 1;
@@ -789,6 +813,9 @@ pub fn run_level_b(
         .or_default() += 1;
         if symlinks > 0 {
             *m.entry("runs_with_symlinked_files".to_string()).or_default() += 1;
+        }
+        if dir_links > 0 {
+            *m.entry("runs_with_symlinked_directories".to_string()).or_default() += 1;
         }
         if git_exclude_used {
             *m.entry("runs_with_rules_in_git_info_exclude".to_string()).or_default() += 1;
